@@ -15,7 +15,7 @@ import Chrono.Spec.Rfc3339Spec
 
 namespace Chrono.Proofs.Rfc3339
 open Chrono Chrono.M Chrono.M.Scan Chrono.M.Parse Chrono.Spec Chrono.Spec.Rfc3339 Chrono.Proofs.RenderScan
-open Chrono.Extracted Chrono.Spec.Ts Chrono.Proofs.Ts Chrono.Proofs
+open Chrono.Extracted Chrono.Spec.Ts Chrono.Proofs.Ts Chrono.Proofs Chrono.Proofs.ParsedRes
 
 /-! ### generic tools for the `Except` monad of the scanner -/
 
